@@ -11,7 +11,35 @@ import (
 )
 
 func init() {
-	Register(&Property{ID: "C12", Run: runC12, Strata: strataC12})
+	Register(&Property{ID: "C12", Run: runC12, Strata: strataC12, Sweep: sweepC12})
+}
+
+// sweepC12: RTU network client and serial client x function x {normal, exception} reply of a small request x every
+// single-bit flip in the first 13 bytes x {whole, cut after byte 5, one byte per read}. Complete over single-bit
+// flips for replies of up to 13 bytes.
+func sweepC12(tier string) []Stratum {
+	var out []Stratum
+	for kind := 0; kind < 2; kind++ {
+		for fc := range AllFCs {
+			for _, exc := range []int32{0, 3} {
+				for pos := int32(0); pos < 13; pos++ {
+					for bit := int32(0); bit < 8; bit++ {
+						for plan := int32(0); plan < 3; plan++ {
+							nm := map[string]int32{"small": 3, "exc": exc, "pos": pos, "bit": bit, "gap": 0, "cut5": 0, "cutmode": 0}
+							switch plan {
+							case 1:
+								nm["cut5"] = 2
+							case 2:
+								nm["cutmode"] = 3
+							}
+							out = append(out, Stratum{Prefix: []int32{int32(kind), int32(fc), 0}, Named: nm})
+						}
+					}
+				}
+			}
+		}
+	}
+	return out
 }
 
 var corruptionNames = []string{"bitflip", "substitute", "burst", "truncate", "extend", "duplicate_segment", "fc_highbit"}
@@ -42,7 +70,10 @@ func genC12(rc *RunCtx) (*C1, *c12Info, bool) {
 	ck := t.Choose(len(corruptionNames))
 	sc.Req = GenLegalReq(t, fc)
 	// small replies most of the time so that corruption positions are dense
-	if (fc <= 4 || fc == 23) && t.Chance(3, 4) {
+	small := t.ChooseAs("small", 4) >= 1
+	if t.Has("small") {
+		SmallReq(&sc.Req)
+	} else if (fc <= 4 || fc == 23) && small {
 		sc.Req.Qty = uint16(1 + t.Choose(6))
 		if int(sc.Req.Addr)+int(sc.Req.Qty) > 65536 {
 			sc.Req.Addr = 0
@@ -55,7 +86,7 @@ func genC12(rc *RunCtx) (*C1, *c12Info, bool) {
 	}
 	sc.LibReq = lr
 	var pdu []byte
-	if t.Chance(1, 4) {
+	if t.ChooseAs("exc", 4) >= 3 {
 		sc.IsExc = true
 		sc.ExcCode = excCodes[t.Choose(len(excCodes))]
 		pdu = []byte{fc | 0x80, sc.ExcCode}
@@ -73,9 +104,9 @@ func genC12(rc *RunCtx) (*C1, *c12Info, bool) {
 	info := &c12Info{Corruption: corruptionNames[ck]}
 	switch ck {
 	case 0: // single bit flip anywhere (including the CRC bytes)
-		i := t.Choose(n)
+		i := t.ChooseAs("pos", n)
 		info.Pos = i
-		bad[i] ^= 1 << uint(t.Choose(8))
+		bad[i] ^= 1 << uint(t.ChooseAs("bit", 8))
 	case 1: // substitute one byte
 		i := t.Choose(n)
 		info.Pos = i
@@ -111,7 +142,7 @@ func genC12(rc *RunCtx) (*C1, *c12Info, bool) {
 	sc.Reply = bad
 	sc.Chunks = genChunks(t, len(bad))
 	// 5-byte prefixes are where the early exception shortcut looks: over-weight a cut there
-	if len(bad) > 5 && t.Chance(1, 3) {
+	if len(bad) > 5 && t.ChooseAs("cut5", 3) >= 2 {
 		sc.Chunks = []Chunk{{N: 5, Gap: gapOf(t)}, {N: len(bad) - 5, Gap: gapOf(t)}}
 	}
 	sc.ReadTimeout = []time.Duration{10 * time.Millisecond, 5 * time.Millisecond, 30 * time.Millisecond, 100 * time.Millisecond}[t.Choose(4)]
@@ -129,6 +160,7 @@ func genC12(rc *RunCtx) (*C1, *c12Info, bool) {
 }
 
 func runC12(rc *RunCtx) {
+	t := rc.Scen
 	sc, info, ok := genC12(rc)
 	if !ok {
 		rc.Probe("ctor_refused")
@@ -139,19 +171,59 @@ func runC12(rc *RunCtx) {
 		rc.Probe("corruption_crc_consistent_skipped")
 		return
 	}
-	out := RunC1(rc, sc)
+	// Sequences on one client: the same corrupted reply twice, or a good exchange first (state kept between calls
+	// must not let a bad frame through the second time).
+	calls := []*C1{sc}
+	infos := []*c12Info{info}
+	if !t.Has("pos") {
+		switch t.Pick(6, 2, 2) {
+		case 1: // the same request answered by the same corrupted bytes again (and once more)
+			for i := 0; i < 1+t.Choose(2); i++ {
+				c := *sc
+				c.Then = nil
+				calls = append(calls, &c)
+				infos = append(infos, info)
+			}
+		case 2: // a valid exchange first, then the corrupted reply to the same request
+			good := *sc
+			good.Reply = sc.Full
+			good.Chunks = []Chunk{{N: len(sc.Full)}}
+			good.Fault = FNone
+			calls = []*C1{&good, sc}
+			infos = []*c12Info{{Corruption: "none"}, info}
+		}
+	}
+	for i := 0; i+1 < len(calls); i++ {
+		calls[i].Then = calls[i+1]
+	}
+	first := RunC1(rc, calls[0])
+	outs := append([]*C1Outcome{first}, first.Next...)
 	rc.Desc = sc.describe()
 	rc.Desc["corruption"] = info.Corruption
 	rc.Desc["corruption_pos"] = info.Pos
 	rc.Desc["valid_reply"] = fmt.Sprintf("%x", trunc(sc.Full, 48))
+	rc.Desc["calls_on_this_client"] = len(calls)
 	rc.Nontrivial = true
-	rc.Fault(info.Corruption, len(out.Consumed) > 0)
-	rc.Probe(fmt.Sprintf("%s|%s|exc=%v", sc.Kind, info.Corruption, sc.IsExc))
-
-	base := fmt.Sprintf("client=%s", sc.Kind)
-	if out.Panic != nil {
-		rc.Violate("panic", base, "panic in %s: %s", out.Panic.Task, out.Panic.Value)
+	rc.Fault(info.Corruption, len(first.Consumed) > 0)
+	rc.Probe(fmt.Sprintf("%s|%s|exc=%v|calls=%d", sc.Kind, info.Corruption, sc.IsExc, len(calls)))
+	if first.Panic != nil {
+		rc.Violate("panic", fmt.Sprintf("client=%s", sc.Kind), "panic in %s: %s", first.Panic.Task, first.Panic.Value)
 		return
+	}
+	for i, out := range outs {
+		if i < len(calls) {
+			checkC12Call(rc, calls[i], infos[i], out, i)
+		}
+	}
+	if len(outs) < len(calls) {
+		rc.Violate("hang", fmt.Sprintf("client=%s", sc.Kind), "call #%d did not return", len(outs))
+	}
+}
+
+func checkC12Call(rc *RunCtx, sc *C1, info *c12Info, out *C1Outcome, idx int) {
+	base := fmt.Sprintf("client=%s", sc.Kind)
+	if idx > 0 {
+		base += "|followup"
 	}
 	if !out.Returned {
 		rc.Violate("hang", base, "Do did not return")
@@ -165,16 +237,16 @@ func runC12(rc *RunCtx) {
 	case out.Err == nil:
 		if !consistent {
 			rc.Violate("badcrc_as_response", fmt.Sprintf("%s|consumed=%s", base, lenClass(len(r))),
-				"client returned %T although the %d bytes it consumed (%x) fail the CRC; corruption %s at %d of valid reply %x",
-				out.Resp, len(r), trunc(r, 40), info.Corruption, info.Pos, trunc(sc.Full, 40))
+				"call #%d: client returned %T although the %d bytes it consumed (%x) fail the CRC; corruption %s at %d of valid reply %x",
+				idx, out.Resp, len(r), trunc(r, 40), info.Corruption, info.Pos, trunc(sc.Full, 40))
 		} else {
 			rc.Probe("consumed_prefix_was_consistent")
 		}
 	case errors.As(out.Err, &exc):
 		if !consistent {
 			rc.Violate("badcrc_as_exception", fmt.Sprintf("%s|consumed=%s|fc_highbit=%v", base, lenClass(len(r)), hi),
-				"client surfaced a device exception (unit %d fc %d code %d) from %d consumed bytes (%x) that fail the CRC; corruption %s at %d of valid reply %x",
-				exc.UnitID, exc.Function, exc.Code, len(r), trunc(r, 40), info.Corruption, info.Pos, trunc(sc.Full, 40))
+				"call #%d: client surfaced a device exception (unit %d fc %d code %d) from %d consumed bytes (%x) that fail the CRC; corruption %s at %d of valid reply %x",
+				idx, exc.UnitID, exc.Function, exc.Code, len(r), trunc(r, 40), info.Corruption, info.Pos, trunc(sc.Full, 40))
 		} else {
 			rc.Probe("consumed_prefix_was_consistent")
 		}
